@@ -423,6 +423,9 @@ contract(
     props=["C13"],
     params={"glyph": Ref("SXGlyph"), "glyphSet": Ref("SXGlyphSet"), "include": Ref("SXNameSet"), "decomposeNested": Const(False)},
     globals=_PEN_GLOBALS,
+    # solver order: the position-wise list-edit obligations of the loop (inv.step.wit / .new) are proved by cvc5 in < 1 s CPU, by z3 only
+    # erratically (1-30 s); the listed solvers are tried first, the rest of the default portfolio follows
+    portfolio=["cvc5", "z3-5.1"],
     ensures={
         # no reference to an included (= skipped) glyph is left in this glyph
         "none-included": _NONE_INCLUDED,
@@ -1852,6 +1855,8 @@ for _nm, _lay, _lnty in (("default-layer", "font.layers.defaultLayer", Const(Non
         canaries={"empty": "all(False for n in result.keyset)", "all-there": _L("all(layer.glyphs[a].name in result.keyset for a in range(len(layer.glyphs)))")},
         modifies=_FL_MOD,
         merge_branches=False,
+        # solver order: post.skipped-gone on the copy+skip path is proved by the no-extensionality configuration at once (z3-5.1 default: > 3 s)
+        portfolio=["z3-5.1/noext", "z3-5.1"],
     )
 
 
